@@ -84,8 +84,8 @@ theorem C05_fixpoint_all_kinds (ps : List PK) (hwf : ∀ k ∈ ps, k.WFs) (pol :
 
 /-- findings: the `NotEquals` propagator accepts a fixed violating pair, and a linear row with
 all-zero coefficients accepts anything -/
-theorem C05_neq_noop_counterexample :
-    (PK.prune (.neq (.var 0) (.var 1)) { st := fun _ => [1] }).isSome = true ∧
+theorem C05_neq_checked :
+    PK.prune (.neq (.var 0) (.var 1)) { st := fun _ => [1] } = none ∧
     PK.holds (fun _ => 1) (.neq (.var 0) (.var 1)) = false := by decide
 
 theorem C05_lin_all_zero_counterexample :
